@@ -490,6 +490,8 @@ impl AbstractTree for Tree {
             .iter()
             .any(|id| !version_lock.latest_version().sealed_memtables.contains(id))
         {
+            #[cfg(feature = "verif")]
+            crate::verif::reach("register_tables:sealed_memtables_gone");
             log::debug!("Not registering tables because flush task processed some sealed memtables which do not exist (anymore)");
             return Ok(());
         }
